@@ -32,6 +32,7 @@ CONSTANTS HistLen,     \* > 0: behaviours of this length are printed (trace gene
           GDirs,       \* directions offered (0 FORWARD, 1 ANY, 2 BACKWARD)
           GUnks,       \* unknown-link handling offered (0 skip, 1 neighbour, 2 error)
           HideSets,    \* sets of vertices an ff_result callback may hide ({} = no callback)
+          ViaSet,      \* ff_via callbacks offered (filters of EGQueries; NoFilter = no callback)
           Pace,        \* BOOLEAN, for -simulate only: at most one structural call after the creation and between two next() calls
           MinLinks     \* for -simulate only: the generator is created once this many links exist (0 otherwise)
 
@@ -43,16 +44,18 @@ VARIABLES g,           \* the generator
 \* menus for the configurations (cfg: HideSets <- HNone ...)
 HNone == {{}}
 HSome == {{}, {1}, {1, 2}}
+VNone == {NoFilter}
+VSome == {NoFilter, [t |-> "sel", L |-> <<1>>, V |-> <<2>>], [t |-> "rej", L |-> <<>>, V |-> <<>>]}
 
 lvars == <<S, last, g, dirty, res, hist>>
 LView == <<S, g, dirty, res>>
 
-NoGen == [st |-> "none", kind |-> "", u |-> 0, s |-> 0, d |-> 0, unk |-> 2, hide |-> {},
+NoGen == [st |-> "none", kind |-> "", u |-> 0, s |-> 0, d |-> 0, unk |-> 2, hide |-> {}, fv |-> NoFilter,
           vis |-> <<>>, q |-> <<>>, fr |-> <<>>, ex |-> 0, ys |-> <<>>, plan |-> <<>>]
 
 Mem(T, u) == IF u = 0 THEN NoUni ELSE Rng(T.members[UIx(u)])
-NbE(T, G, x) == NbErr(T, x, G.d, G.unk, NoFilter)
-NbL(T, G, x) == NbList(T, x, G.d, G.unk, NoFilter)
+NbE(T, G, x) == NbErr(T, x, G.d, G.unk, G.fv)
+NbL(T, G, x) == NbList(T, x, G.d, G.unk, G.fv)
 Frame(v, pend, ev) == [v |-> v, pend |-> pend, ev |-> ev]
 
 Stop(G)      == [g |-> [G EXCEPT !.st = "done"], out |-> 0, err |-> ""]
@@ -111,7 +114,7 @@ Run(T, G) == CASE G.kind = "ibft" -> RunB(T, G) [] G.kind = "idftr" -> RunR(T, G
 PlanOf(T, G) ==
   LET fr == IF G.hide = {} THEN NoFilter ELSE [t |-> "sel", L |-> <<>>, V |-> SetToSeqAsc(BornObj(T) \ G.hide)]
       which == CASE G.kind = "ibft" -> "bft" [] G.kind = "idftr" -> "dftr" [] G.kind = "idfti" -> "dfti"
-  IN Trav(which, T, Mem(T, G.u), G.s, G.d, G.unk, NoFilter, fr)
+  IN Trav(which, T, Mem(T, G.u), G.s, G.d, G.unk, G.fv, fr)
 
 \* the first next(): the preflight checks of the function body, then the loop
 First(T, G) ==
@@ -137,10 +140,10 @@ GenNext(T, G) == CASE G.st = "new"  -> First(T, G)
 NoRes == [out |-> 0, err |-> ""]
 LInit == /\ Init /\ g = NoGen /\ dirty = FALSE /\ res = NoRes /\ hist = <<>>
 
-Create(kind, u, s, d, unk, hide) ==
+Create(kind, u, s, d, unk, hide, fv) ==
   /\ g.st = "none" /\ S.nl >= MinLinks
-  /\ g' = [NoGen EXCEPT !.st = "new", !.kind = kind, !.u = u, !.s = s, !.d = d, !.unk = unk, !.hide = hide]
-  /\ last' = [c |-> Call("gcreate", kind, <<u, s, d, unk>>, SetToSeqAsc(hide)), err |-> FALSE, out |-> <<>>]
+  /\ g' = [NoGen EXCEPT !.st = "new", !.kind = kind, !.u = u, !.s = s, !.d = d, !.unk = unk, !.hide = hide, !.fv = fv]
+  /\ last' = [c |-> [op |-> "gcreate", k |-> kind, a |-> <<u, s, d, unk>>, b |-> SetToSeqAsc(hide), fv |-> fv], err |-> FALSE, out |-> <<>>]
   /\ res' = NoRes
   /\ UNCHANGED <<S, dirty>>
 
@@ -160,8 +163,8 @@ Mutate == /\ (Pace /\ g.st # "none") => last.c.op \in {"gnext", "gcreate"}
 
 LStep == \/ Mutate
          \/ GNext
-         \/ \E kind \in GenKinds, u \in {0} \cup BornUnis, s \in 1..S.bv, d \in GDirs, unk \in GUnks, hide \in HideSets :
-               Create(kind, u, s, d, unk, hide)
+         \/ \E kind \in GenKinds, u \in {0} \cup BornUnis, s \in 1..S.bv, d \in GDirs, unk \in GUnks, hide \in HideSets, fv \in ViaSet :
+               Create(kind, u, s, d, unk, hide, fv)
 \* lz: this yield differs from what an eager evaluation at the first next() would have produced at this position
 Lazy == /\ last'.c.op = "gnext" /\ res'.out # 0
         /\ LET k == Len(g'.ys) IN k > Len(g'.plan) \/ g'.plan[k] # res'.out
